@@ -1,5 +1,5 @@
 (** C01 — the mailbox is FIFO: sequential, in-order, at-most-once handling. Statements only. *)
-From Hannibal Require Import Model.Sys Inv.Mailbox Inv.Step Inv.SysOk Inv.C03 Chk.C03.
+From Hannibal Require Import Model.Sys Inv.Mailbox Inv.Step Inv.SysOk Inv.C03 Chk.C03 Inv.C01b.
 
 (** FIFO discipline, for both submission paths and every handle kind at once: in one step of the
     model every mailbox queue is left alone, or gets exactly one payload with a fresh id appended
@@ -50,3 +50,27 @@ Print Assumptions C01_queued_at_most_once.
 Theorem C01_no_overlap : forall tr, accepts tr = true -> chk_C03 tr = true.
 Proof. exact accepts_chk_C03. Qed.
 Print Assumptions C01_no_overlap.
+
+(** First in, first handled - over whole executions. If, in a state reachable by any trace, o1
+    is queued ahead of o2 at an actor, then on every continuation, whenever the handler of o2 is
+    entered, the handler of o1 was entered earlier on that continuation (or o1 was a ping, which
+    the loop answers by itself as it takes it out): o2 is never handled before o1 nor without it.
+    A mailbox that was dropped meanwhile (the actor died) has neither handled. *)
+Theorem C01_first_in_first_handled :
+  forall tr1 tr2 s1 s2 s3 a x1 o1 o2,
+  run init tr1 = Acc s1 -> actors s1 a = Some x1 -> ahead (a_queue x1) o1 o2 ->
+  run s1 tr2 = Acc s2 -> step s2 (EvHBegin a o2) = Acc s3 ->
+  In (EvHBegin a o1) tr2 \/ is_ping s1 o1.
+Proof.
+  intros tr1 tr2 s1 s2 s3 a x1 o1 o2 H. apply fifo_run. exact (sys_ok_run _ _ _ sys_ok_init H).
+Qed.
+Print Assumptions C01_first_in_first_handled.
+
+(** ... and every submission - through any handle kind, on the waiting or the forcing path: the
+    model has one [mb_enq] - goes to the tail: whatever is still queued when o2 is submitted is
+    ahead of o2. With "the submission happens between the operation's invocation and its return"
+    (the model enqueues at the Op event) this is the real-time-order clause. *)
+Theorem C01_submission_goes_to_the_tail :
+  forall w o2 m o1, In (PTask o1) (m_queue m) -> ahead (m_queue (mb_enq w (PTask o2) m)) o1 o2.
+Proof. exact enq_behind. Qed.
+Print Assumptions C01_submission_goes_to_the_tail.
